@@ -222,9 +222,9 @@ def big_cases(ctx):
     rng = random.Random(ctx.seed * 7919 + 88)
     thorough = ctx.tier == "thorough"
     cases = []
-    for kind in ("bdd", "bcdd"):
+    for kind in ("bdd", "bcdd", "zbdd"):
         ops = ["VARS 2"]
-        for _ in range(60 if thorough else 14):
+        for _ in range((60 if thorough else 14) if kind != "zbdd" else (30 if thorough else 6)):
             top = rng.choice([6, 8, 12])
             k = rng.randrange(3, min(9, top + 1))
             vs = rng.sample(range(top), k)
@@ -248,7 +248,7 @@ def run(ctx):
     # every fourth case also on the debug-profile harness (debug assertions of level_swap etc.)
     ddcommon.run_dd(
         ctx, ["C08"], cases, debug_cases=cases[::4] if ctx.tier != "thorough" else cases[::2],
-        rule="concurrent bubble sort: per kind (bdd, bcdd) 20 (thorough 66) set_var_order calls on a manager of its own holding a 2^19-node function with 2/4/8 workers (random partial orders over the top 6/8/12 variables -- deeper levels of that function hold up to 2^18 nodes and a swap there takes seconds --, block rotations, reversals): resulting order, minimal swap count, 256 sampled evaluations; a quarter of the cases (half in thorough) and the corpus are run a second time on a debug-profile build of /repo (debug assertions, overflow checks); per kind (bdd, bcdd, zbdd): single level swaps (LEVELDOWN i with a snapshot before and after: all 256 functions of 3 variables alive x both positions x with/without dead nodes, chains of 6 swaps from sampled source orders, 1..11 sampled functions alive so that nodes lose their last reference, chains of 1..9 swaps on random tables of 4..6 variables; on bdd every swap is replayed on the extracted level_swap, on bcdd on the extracted level_swap_c, on zbdd on the extracted zchain_drop / level_swap_zc / zchain_rebuild, and the tables must be isomorphic); tdd: 36 (thorough 160) cases of 2..5 variables with 2..24 random three-valued operator applications (and/or/xor/equiv/nand/nor/imp/imp_strict/not/ite over variables and the constants f/u/t), a third of the results and sometimes the variable handles dropped, 1..7 swaps and 0..3 reorderings each replayed on the extracted ternary model, up to 5 T3EVAL; mtbdd: the 81 functions of 2 variables over 3 sampled values and random tables of 3..5 variables, swaps and reorderings replayed likewise; every set_var_order on a bdd/mtbdd/bcdd table without empty levels and on every zbdd table (<= 1200 nodes) is replayed on the extracted set_var_order_model(_c/_z) likewise; for 3 variables every source order (2 in quick) x all 12 total and partial target orders with all 256 functions alive, each followed by re-derivation, optional gc and the way back; 4 variables with 48 sampled functions and sampled targets; 5..7 variables with random functions and orders; random histories mixing reorderings with operations and gc; set_var_order and set_var_order_seq, 1/2/4/8 workers. non-trivial = case with >= 3 ops",
+        rule="concurrent bubble sort: per kind (bdd, bcdd; zbdd with fewer random requests) 25 (thorough 71) set_var_order calls on a manager of its own (with or without two node-less levels) holding a 2^19-node function with 2/4/8 workers (random partial orders over the top 6/8/12 variables -- deeper levels of that function hold up to 2^18 nodes and a swap there takes seconds --, block rotations, reversals): resulting order, minimal swap count, 256 sampled evaluations, re-derivation of the function arrives at the live handle, node count after a collection; a quarter of the cases (half in thorough) and the corpus are run a second time on a debug-profile build of /repo (debug assertions, overflow checks); per kind (bdd, bcdd, zbdd): single level swaps (LEVELDOWN i with a snapshot before and after: all 256 functions of 3 variables alive x both positions x with/without dead nodes, chains of 6 swaps from sampled source orders, 1..11 sampled functions alive so that nodes lose their last reference, chains of 1..9 swaps on random tables of 4..6 variables; on bdd every swap is replayed on the extracted level_swap, on bcdd on the extracted level_swap_c, on zbdd on the extracted zchain_drop / level_swap_zc / zchain_rebuild, and the tables must be isomorphic); tdd: 36 (thorough 160) cases of 2..5 variables with 2..24 random three-valued operator applications (and/or/xor/equiv/nand/nor/imp/imp_strict/not/ite over variables and the constants f/u/t), a third of the results and sometimes the variable handles dropped, 1..7 swaps and 0..3 reorderings each replayed on the extracted ternary model, up to 5 T3EVAL; mtbdd: the 81 functions of 2 variables over 3 sampled values and random tables of 3..5 variables, swaps and reorderings replayed likewise; every set_var_order on a bdd/mtbdd/bcdd table without empty levels and on every zbdd table (<= 1200 nodes) is replayed on the extracted set_var_order_model(_c/_z) likewise; for 3 variables every source order (2 in quick) x all 12 total and partial target orders with all 256 functions alive, each followed by re-derivation, optional gc and the way back; 4 variables with 48 sampled functions and sampled targets; 5..7 variables with random functions and orders; random histories mixing reorderings with operations and gc; set_var_order and set_var_order_seq, 1/2/4/8 workers. non-trivial = case with >= 3 ops",
         allowed_axioms=ALLOWED_AXIOMS)
 
 
